@@ -182,6 +182,17 @@ impl<'a> LinkBuilder<'a> {
 
 #[cfg(feature = "verif-hooks")]
 impl PendingLink {
+    /// 0 = router has not answered yet, 1 = answer waiting, 2 = router dropped the link
+    pub fn verif_state(&self) -> u8 {
+        if !self.link_rx.is_empty() {
+            1
+        } else if self.link_rx.is_disconnected() {
+            2
+        } else {
+            0
+        }
+    }
+
     /// Same as the tail of `build`, with a non-blocking receive
     pub fn finish(self) -> Result<(LinkTx, LinkRx, Notification), LinkError> {
         self.link_rx.try_recv().map_err(|_| LinkError::NotConnectionAck)?;
@@ -398,6 +409,13 @@ impl LinkRx {
 
     pub fn id(&self) -> ConnectionId {
         self.connection_id
+    }
+
+    /// Copy of what the router has put in this link's outgoing buffer and the link has
+    /// not collected yet
+    #[cfg(feature = "verif-hooks")]
+    pub fn verif_peek(&self) -> Vec<Notification> {
+        self.send_buffer.lock().iter().cloned().collect()
     }
 
     pub fn recv(&mut self) -> Result<Option<Notification>, LinkError> {
